@@ -16,7 +16,7 @@ from ..fa import FA
 from ..loader import AnalysisError
 from .valeq import check_typed_identity
 from .ladders import extract_ladder, check_ladder_order, repo_subclass_pairs
-from .c16 import (FlatInit, outliving_state_reads, canon_conj, conds, fexpand, ftext, is_copy_of, lit_expr, map_shape, origin, same_def, single_def, strip_cast, _ref_name)
+from .c16 import (subst_names, FlatInit, outliving_state_reads, canon_conj, conds, fexpand, ftext, is_copy_of, lit_expr, map_shape, origin, same_def, single_def, strip_cast, _ref_name)
 
 AH = "reference.ArgumentHasher"
 FRA = "reference.FunctionReferenceWithArguments"
@@ -774,6 +774,20 @@ def _holds_for_class(fa, e, param, typ):
         return of_class(_type_names(fa, e.args[1]))
     if isinstance(e, ast.Call) and isinstance(e.func, ast.Name) and e.func.id == "callable" and len(e.args) == 1 and A.norm(e.args[0]) == param:
         return False
+    if isinstance(e, ast.Call) and isinstance(e.func, ast.Name) and e.func.id in ("any", "all") and len(e.args) == 1 and not e.keywords \
+            and isinstance(e.args[0], (ast.GeneratorExp, ast.ListComp)) and len(e.args[0].generators) == 1 and not e.args[0].generators[0].ifs \
+            and isinstance(e.args[0].generators[0].target, ast.Name):
+        # a class test made against each type of a collection in turn
+        g = e.args[0].generators[0]
+        vs = []
+        for t_ in (g.iter.elts if isinstance(g.iter, (ast.Tuple, ast.List, ast.Set)) else []):
+            one = subst_names(e.args[0].elt, {g.target.id: t_})
+            vs.append(_holds_for_class(fa, one, param, typ))
+        if vs:
+            if e.func.id == "any":
+                return True if any(v is True for v in vs) else (False if all(v is False for v in vs) else None)
+            return False if any(v is False for v in vs) else (True if all(v is True for v in vs) else None)
+        return None
     if isinstance(e, ast.Compare) and len(e.ops) == 1:
         op, l, r = e.ops[0], e.left, e.comparators[0]
         pos = isinstance(op, (ast.Is, ast.Eq, ast.In))
@@ -794,12 +808,28 @@ def _holds_for_class(fa, e, param, typ):
     return None
 
 
+def _mentions_class_of(e, param):
+    """does the test `e` look at the class of `param` (isinstance / type / __class__ / issubclass somewhere in it)"""
+    for x in ast.walk(e):
+        if isinstance(x, ast.Call) and isinstance(x.func, ast.Name) and x.func.id in ("isinstance", "type", "issubclass") \
+                and any(isinstance(y, ast.Name) and y.id == param for a in x.args for y in ast.walk(a)):
+            return True
+        if isinstance(x, ast.Attribute) and x.attr == "__class__" and A.norm(x.value) == param:
+            return True
+    return False
+
+
 def _answers_its_argument(fa, param, typ):
     """The return cases of `fa` that a value of class `typ` can take and on which what is answered is the argument itself
     (not a container built there): [(value, node)].  A result chosen by a conditional expression / `or` is split."""
     out = []
     for (conj, v, at) in result_cases(fa):
         if not _case_for_class(fa, conj, param, typ)[0]:
+            continue
+        # (a case selected by a test on the argument's class that this rule cannot read - a predicate over a table of types
+        # written some other way - is not counted: what the case answers for a list / a mapping is not known)
+        if any(pol and _holds_for_class(fa, lit_expr(t, pol)[0], param, typ) is None and _mentions_class_of(lit_expr(t, pol)[0], param)
+               for (t, pol) in conj if lit_expr(t, pol)[0] is not None and lit_expr(t, pol)[1]):
             continue
 
         def leaves(x):
